@@ -75,6 +75,10 @@ pub fn data_elements_to_string(elements: &Vec<DataElement>) -> String {
     elements
         .iter()
         .map(|element| match element {
+            // A string containing a double quote can only have come from an
+            // unquoted item (there is no way to escape a quote inside a quoted
+            // one), and wrapping it in quotes would make it parse differently.
+            DataElement::String(string) if string.contains('"') => string.to_string(),
             DataElement::String(string) => format!("\"{}\"", string),
             DataElement::Number(number) => number.to_string(),
         })
@@ -169,7 +173,15 @@ impl<'a> DataParser<'a> {
             return;
         }
 
-        if self.current_element.len() > 0 {
+        // Blanks after the last item (e.g. between a closing quote and the
+        // colon that ends the statement) are not an item of their own, just
+        // like blanks in front of a comma aren't.
+        let has_pending_item = if self.state == ParseState::InDoubleQuotedString {
+            self.current_element.len() > 0
+        } else {
+            !self.current_element.trim().is_empty()
+        };
+        if has_pending_item {
             self.push_current_element();
         } else if self.elements.len() == 0 {
             self.push_current_element();
